@@ -291,6 +291,24 @@ fn gen_cell(src: &mut Src, st: &MStack, name: &str, lower: &[MCellT], max_size: 
                 }
             }
         }
+        // off the period grid (unrealisable-requests sub-check only), one time in three the new instance goes into
+        // the row right above the previous one with its extent nested inside the other's (or into the column right
+        // beside it, nested the other way): on a layer whose period spans both rows the two then block overlapping
+        // stretches of the same tracks
+        if let Some(prev) = blocked.last() {
+            if ix == 1 && iy == 1 && LOOSE_CUTS.with(|c| c.get()) && src.prob(1, 3) {
+                let (pw, ph) = (prev.2 - prev.0, prev.3 - prev.1);
+                if src.bool() {
+                    if lc.size.0 <= pw && prev.3 + lc.size.1 <= size.1 {
+                        x0 = prev.0 + src.i64_in(0, pw - lc.size.0);
+                        y0 = prev.3;
+                    }
+                } else if lc.size.1 <= ph && prev.2 + lc.size.0 <= size.0 {
+                    y0 = prev.1 + src.i64_in(0, ph - lc.size.1);
+                    x0 = prev.2;
+                }
+            }
+        }
         let bb = (x0, y0, x0 + lc.size.0, y0 + lc.size.1);
         if blocked.iter().any(|b| bb.0 < b.2 && b.0 < bb.2 && bb.1 < b.3 && b.1 < bb.3) {
             continue;
